@@ -110,6 +110,9 @@ func Load(patterns []string) (*Engine, error) {
 			return nil, err
 		}
 	}
+	for k, v := range eng.db.Ghosts {
+		eng.ghostTypes[k] = v
+	}
 	eng.indexFuncs()
 	return eng, nil
 }
